@@ -163,7 +163,7 @@ def apply_step(K, kind, data, step):
     elif step == "save":
         o.save(b)
     else:
-        set_tag(o, kind, {"small": 5, "medium": 4000, "large": 300 * 1024}[step])
+        set_tag(o, kind, int(step[4:]) if step.startswith("len=") else {"small": 5, "medium": 4000, "large": 300 * 1024}[step])
         o.save(b)
     return b.getvalue()
 
@@ -460,6 +460,23 @@ def direct_oracle(ctx, env, full, nperm, only=None):
             hist.append(st)
             if not check_state(ctx, env, f, kind, cur, hist, names, nperm, data):
                 break
+        # tag-size sweep: every title length 0..140 moves the tag's header/footer (tags at the end of the file) or the
+        # stream marker (tags at the start) across the 32/128/160-byte windows the score functions look at
+        try:
+            base = apply_step(K, kind, data, "delete")
+        except Exception:
+            base = None
+        if base is not None and kind not in VC_TAGGED and kind not in ("MP4", "ASF"):
+            dense = kind not in ID3_TAGGED
+            for n in range(0, 141, 1 if (dense or full) else 9):
+                try:
+                    cur2 = apply_step(K, kind, base, "len=%d" % n)
+                except Exception as e:
+                    ctx.count("oracle-step-failed:%s" % type(e).__name__)
+                    break
+                ctx.count("oracle:tag-size-sweep")
+                if not check_state(ctx, env, f, kind, cur2, ["delete", "len=%d" % n], names[:1] + names[-1:], 1, data):
+                    break
         # once through a real path on disk (File given a file name)
         if hist:
             tmp = tempfile.mkdtemp(prefix="c18_")
